@@ -776,9 +776,13 @@ func cmdCheck(args []string) int {
 		"wall_s":      time.Since(start).Seconds(),
 		"violations":  len(violations),
 	}
-	os.MkdirAll(filepath.Join(verifDir, "evidence"), 0o755)
+	evDir := filepath.Join(verifDir, "evidence")
+	if d := os.Getenv("GOVC_EVIDENCE_DIR"); d != "" {
+		evDir = d
+	}
+	os.MkdirAll(evDir, 0o755)
 	b, _ := json.MarshalIndent(ev, "", " ")
-	os.WriteFile(filepath.Join(verifDir, "evidence", *prop+".json"), append(b, '\n'), 0o644)
+	os.WriteFile(filepath.Join(evDir, *prop+".json"), append(b, '\n'), 0o644)
 
 	fmt.Printf("property %s: %d units, %d obligations, %d discharged, %d unproved (not claimed), %d violations, %.1fs\n",
 		*prop, len(funcs), total, discharged, len(unproved), len(violations), time.Since(start).Seconds())
@@ -796,7 +800,11 @@ func cmdCheck(args []string) int {
 }
 
 func replayPath(prop, name string) string {
-	return filepath.Join(verifDir, "out", "replay", prop, sanitize(name)+".txt")
+	base := filepath.Join(verifDir, "out", "replay")
+	if d := os.Getenv("GOVC_REPLAY_DIR"); d != "" {
+		base = d
+	}
+	return filepath.Join(base, prop, sanitize(name)+".txt")
 }
 
 func writeReplay(prop, name, text string) string {
@@ -977,7 +985,7 @@ func cmdWrites(args []string) int {
 		for k, fn := range g.fnByKey {
 			if strings.HasSuffix(k, pat) {
 				start := time.Now()
-				ws, all := g.fnWrites(fn)
+				ws, all := g.fnWrites(fn, fn.Pkg.Pkg)
 				fmt.Printf("== %s all=%v (%d keys, %.1fs)\n", k, all, len(ws), time.Since(start).Seconds())
 				for _, w := range sortedKeys(ws) {
 					if strings.Contains(w, "corazawaf") || strings.Contains(w, "$") || strings.HasPrefix(w, "gh!") {
